@@ -96,9 +96,103 @@ def _replay(cfg, values, doc):
     return {'reproduced': False, 'detail': 'no collision among %d small keys' % len(seen)}
 
 
+# ------------------------------------------------------------------ Bag.to_dict: which keys are encoded as composite (real entities, ground)
+_M = None
+
+
+def model():
+    global _M
+    if _M is None:
+        from pony import orm
+        import types
+        db = orm.Database('sqlite', ':memory:')
+
+        class Seat(db.Entity):
+            row = orm.Required(int); number = orm.Required(int)
+            orm.PrimaryKey(row, number)
+            booking = orm.Optional('Booking')
+
+        class Booking(db.Entity):
+            seat = orm.PrimaryKey(Seat)             # ONE key attribute, TWO raw key columns
+            trip = orm.Required('Trip')
+
+        class Trip(db.Entity):
+            name = orm.Required(str)
+            bookings = orm.Set(Booking)
+            seats_plain = orm.Set('Plain')
+
+        class Plain(db.Entity):
+            trip = orm.Optional(Trip)
+        db.generate_mapping(create_tables=True)
+        with orm.db_session:
+            t = Trip(name='t')
+            for r, n in ((1, 2), (1, 3), (4, 5)):
+                Booking(seat=Seat(row=r, number=n), trip=t)
+            Plain(trip=t); Plain(trip=t)
+        _M = types.SimpleNamespace(db=db, orm=orm)
+    return _M
+
+
+def _td_case(cfg, values):
+    M = model()
+
+    def call():
+        with M.orm.db_session:
+            t = M.db.Trip.select().first()
+            objs = {'Trip': [t], 'Booking': list(M.db.Booking.select()), 'Seat': list(M.db.Seat.select()), 'Plain': list(M.db.Plain.select())}[cfg['start']]
+            d = ser.to_dict(objs)
+            raw = {e: sorted(o._get_raw_pkval_() for o in getattr(M.db, e).select()) for e in ('Trip', 'Booking', 'Seat', 'Plain')}
+            return dict(d), raw
+    return Case(call, {}, [])
+
+
+def _td_decode(key):
+    if isinstance(key, str):
+        parts = []; text = key
+        while True:
+            dec = SH.decode_concrete(lambda c0, c1: decoder(c0, c1), text, stop_kinds=(SH.STOP,))
+            if dec is None: return None
+            parts.append(dec[0])
+            rest = dec[1]
+            if rest == '' and (len(text) - len(dec[0].replace('*', '**').replace(',', '*,')) <= 1):
+                break
+            text = rest
+            if text == '': break
+        return tuple(int(x) for x in parts)
+    return (key,)
+
+
+def _td_keys(cfg, i, path):
+    """every object of the result is reported under its own key: keys are pairwise distinct and denote the object's raw primary key"""
+    if path.outcome != 'ret': return False
+    d, raw = path.value
+    for ename, objs in d.items():
+        keys = [_td_decode(k) for k in objs]
+        if None in keys or len(set(keys)) != len(keys): return False
+        if not set(keys) <= set(raw[ename]): return False
+    want = {'Trip': {'Trip': 1, 'Booking': 3, 'Plain': 2}, 'Booking': {'Booking': 3}, 'Seat': {'Seat': 3}, 'Plain': {'Plain': 2}}[cfg['start']]
+    return all(len(d.get(e, {})) >= n for e, n in want.items())
+
+
+def _td_relation_keys(cfg, i, path):
+    """collection attributes list the keys of ALL related objects, distinct objects under distinct keys that denote their raw primary keys"""
+    if path.outcome != 'ret': return False
+    d, raw = path.value
+    if cfg['start'] != 'Trip': return None
+    t = list(d['Trip'].values())[0]
+    bk = [_td_decode(k) for k in t['bookings']]
+    pl = [_td_decode(k) for k in t['seats_plain']]
+    return (None not in bk and sorted(bk) == raw['Booking'] and sorted(pl) == raw['Plain'])
+
+
 CONTRACTS = [
     Contract('Bag._reduce_composite_pk', 'pony.orm.serialization:Bag._reduce_composite_pk', [dict(arity=k) for k in (2, 3, 4)], _case,
              [('parts_encoded_with_one_chain_and_joined_by_commas', _shape)] + [('local_decode[%s]' % c, _local(c)) for c in ('*', ',', OTHER)]
              + [('separator_and_end_stop_a_part', _sep)], replay=_replay,
              doc='composite key encoding is uniquely decodable, hence injective on tuples of equal arity, for all strings'),
+    Contract('Bag.to_dict.keys', ['pony.orm.serialization:Bag.to_dict', 'pony.orm.serialization:Bag._process_object'],
+             [dict(start=s) for s in ('Trip', 'Booking', 'Seat', 'Plain')], _td_case,
+             [('objects_reported_under_distinct_keys_denoting_their_raw_pk', _td_keys), ('collection_lists_distinct_keys_of_all_related_objects', _td_relation_keys)],
+             level='bounded', bound='one model: single-column key, multi-attribute composite key, single key attribute referencing a composite-key entity',
+             doc='the decision "encode as composite" must follow the number of raw key columns'),
 ]
